@@ -168,7 +168,7 @@ def run(ctx):
     ctx.rule("R15.5", "a manager that is stopped while its start loop is still running (the first trigger fired at once) starts no further trigger", floor=2)
     start_typestate(ctx, program, "R15.5")
 
-    ctx.rule("R15.6", "legacy wait_until: a notification received during a pending state_hold is never taken for the hold's expiry", floor=3)
+    ctx.rule("R15.6", "legacy wait_until: a notification received during a pending state_hold is never taken for the hold's expiry (scripted histories)", floor=7)
     from .c05 import legacy_hold_rules
     legacy_hold_rules(ctx, program, "R15.6", uids=(LEGACY,))
 
